@@ -123,7 +123,9 @@ type Sim struct {
 	RandReads int
 	// RandLog, when non-nil, records every chunk handed out by the simulated crypto/rand.
 	RandLog map[string]int
-	skew      map[int]time.Duration
+	// RandStream, when RandLog is on, is the concatenation of everything handed out.
+	RandStream []byte
+	skew       map[int]time.Duration
 
 	// Ext is free for the harness.
 	Ext any
@@ -709,6 +711,23 @@ func (s *Sim) RandRead(b []byte) (int, error) {
 	s.rand.Fill(b)
 	if s.RandLog != nil {
 		s.RandLog[string(b)]++
+		s.RandStream = append(s.RandStream, b...)
 	}
 	return len(b), nil
+}
+
+// RearmPCT draws fresh priority change points relative to the current step, spread over the next
+// n steps: engines call it when a concurrent phase starts late in a long run.
+func (s *Sim) RearmPCT(n int) {
+	if s.Cfg.Strategy != StratPCT || n <= 0 {
+		return
+	}
+	for i := range s.pctChange {
+		s.pctChange[i] = s.Steps + 1 + s.Tape.Choose(n, "pct.rearm")
+	}
+	for _, t := range s.tasks {
+		if !t.done {
+			t.prio = s.Cfg.PCTDepth + 1 + s.Tape.Choose(1000, "pct.reprio")
+		}
+	}
 }
